@@ -41,11 +41,11 @@ theorem until_time_plants_sentinel (body : σ → Resume → Burst ℚ σ) (fuel
   refine ⟨_, rfl, ?_, rfl, ?_, ?_⟩
   · exact C01.sentinel_due s t _
   · unfold KState.addCb
-    rw [KState.ev_setEv, if_pos ⟨rfl, by simp [KState.newEv, KState.schedule]⟩]
-    simp [KState.ev, getD_push, KState.schedule, KState.newEv]
+    rw [KState.ev_setEv, if_pos ⟨rfl, by simp [KState.newEv, KState.scheduleAt]⟩]
+    simp [KState.ev, getD_push, KState.scheduleAt, KState.newEv]
   · unfold KState.addCb
-    rw [KState.ev_setEv, if_pos ⟨rfl, by simp [KState.newEv, KState.schedule]⟩]
-    simp [KState.ev, getD_push, KState.schedule, KState.newEv]
+    rw [KState.ev_setEv, if_pos ⟨rfl, by simp [KState.newEv, KState.scheduleAt]⟩]
+    simp [KState.ev, getD_push, KState.scheduleAt, KState.newEv]
 
 /-- **`run(until=event)` on an already processed event returns its value at once, without stepping.** -/
 theorem until_event_processed_immediate (body : σ → Resume → Burst ℚ σ) (fuel n : Nat) (e : EvId) (v : Val)
